@@ -9,11 +9,16 @@
 //      the sender that still waits for a receiver instead of the one whose value was taken: that sender stays
 //      blocked in send() although its value was received (and, with a receiver announced, sender and receiver
 //      can both stay blocked)
+//   D: no overwrite at all: timed sender T placed 1, receiver R1 took it and made T runnable; before T runs, sender U
+//      places 2 for the second announced receiver. T re-checks "slot still full?", takes U's value for its own,
+//      finds its deadline passed, DELETES U's cell and returns false (although 1 was delivered); U's send(2) later
+//      returns true although nobody received 2
 // build: g++ -std=c++17 -O1 -g -I/repo/include C09_unbuffered_slot_overwrite.cpp -L<libdir> -lphoton -Wl,-rpath,<libdir> -lpthread
 #include <photon/thread/thread.h>
 #include <photon/thread/thread11.h>
 #include <photon/thread/go.h>
 #include <cstdio>
+#include <time.h>
 using namespace photon;
 
 struct Snd { int ret = -1; bool done = false; };
@@ -71,10 +76,29 @@ static int scenario_C() {
     thread_join(a); thread_join(b);
     return r1 && r2 && (stuck1 || stuck2);
 }
+static void spin_ms(int ms) {
+    struct timespec a, b;
+    clock_gettime(CLOCK_MONOTONIC, &a);
+    do clock_gettime(CLOCK_MONOTONIC, &b); while ((b.tv_sec - a.tv_sec) * 1000 + (b.tv_nsec - a.tv_nsec) / 1000000 < ms);
+}
+static int scenario_D() {
+    channel<int> ch;
+    bool r1 = false, r2 = false; int v1 = 0, v2 = 0;
+    int tret = -1, uret = -1;
+    auto R1 = thread_enable_join(thread_create11([&] { r1 = ch.recv(v1, 300 * 1000); }));
+    auto R2 = thread_enable_join(thread_create11([&] { r2 = ch.recv(v2, 300 * 1000); }));
+    thread_usleep(1000);                       // two receivers are announced and wait
+    auto T = thread_enable_join(thread_create11([&] { tret = ch.send(1, 2000); }));            // 2 ms
+    auto U = thread_enable_join(thread_create11([&] { thread_yield(); spin_ms(3); uret = ch.send(2, 100 * 1000); }));
+    thread_join(T); thread_join(U); thread_join(R1); thread_join(R2);
+    printf("D timed-out sender       : send(1, 2 ms)=%d send(2)=%d | receiver#1=%d (value %d) receiver#2=%d (value %d)  %s\n", tret, uret, r1, v1, r2, v2,
+           (uret == 1 && !(r1 && v1 == 2) && !(r2 && v2 == 2)) ? "=> value 2 reported sent was LOST (deleted by the other sender)" : "");
+    return uret == 1 && !(r1 && v1 == 2) && !(r2 && v2 == 2);
+}
 int main() {
     setvbuf(stdout, nullptr, _IOLBF, 0);
     vcpu_init();
-    int bad = scenario_A() + scenario_B() + scenario_C();
+    int bad = scenario_A() + scenario_B() + scenario_C() + scenario_D();
     vcpu_fini();
     return bad ? 1 : 0;
 }
